@@ -7,7 +7,8 @@ class C05(ViewsCheck):
     mode = "write"
     exh_kind = "write"
     gen_cfg = "GenViews_write.cfg"
-    types_thorough = ["f64", "f32", "i32", "i64"]
+    types_quick = ["f64", "f32", "i32", "c64"]
+    types_thorough = ["f64", "f32", "i32", "i64", "c64"]     # complex<float> strided views compile in no configuration: not offered
     rule = ("behaviours = `tlc -generate` walks of the tensor machine GenViews (Mode=write): 5 calls each on a 6-buffer arena of ranks 1-4, "
             "destination ranges drawn per extent class in every admissible encoding (positive, last-relative, both negative, all, bare integer, "
             "fseq/fix), operators = += -= *= /=, right-hand sides scalar / tensor / slice of another buffer / m*slice+c / slice+tensor; "
